@@ -426,3 +426,20 @@ func VF_C13_div_mod_int64() {
 		vhExpectInt(v, err, new(big.Int).Rem(a, b), "MOD64")
 	}
 }
+
+//vf:tier quick
+//vf:bigint theory
+//vf:unwind 64
+//vf:bound SHL, SHR of any 256-bit integer by a count from {0,1,2,3,7,8,63,64,65,127,128,254,255,256} (case split, so that implementations comparing the count with the operand's size stay decidable)
+func VF_C13_shift_fixed_counts() {
+	a := vhInt("a")
+	k := []int{0, 1, 2, 3, 7, 8, 63, 64, 65, 127, 128, 254, 255, 256}[vfChoose("count", 0, 13)]
+	p := new(big.Int).Lsh(big.NewInt(1), uint(k))
+	if vfBool("left") {
+		v, err := vhExec(opcode.SHL, vhI(a), vhI(big.NewInt(int64(k))))
+		vhExpectInt(v, err, new(big.Int).Mul(a, p), "SHLk")
+	} else {
+		v, err := vhExec(opcode.SHR, vhI(a), vhI(big.NewInt(int64(k))))
+		vhExpectInt(v, err, new(big.Int).Div(a, p), "SHRk")
+	}
+}
